@@ -475,9 +475,13 @@ struct lbuf;
 void __real_lbuf_edit(struct lbuf *lb, char *s, int beg, int end);
 static long nvx_splices;
 static void (*nvx_edit_hook)(struct lbuf *lb, char *s, int beg, int end);
+int lbuf_len(struct lbuf *lb);
 void __wrap_lbuf_edit(struct lbuf *lb, char *s, int beg, int end)
 {
-	nvx_splices++;
+	int n = lbuf_len(lb);
+	/* the documented no-op (no text, empty range after clamping) is not a splice */
+	if (s || (beg > n ? n : beg) != (end > n ? n : end))
+		nvx_splices++;
 	if (nvx_edit_hook)
 		nvx_edit_hook(lb, s, beg, end);
 	__real_lbuf_edit(lb, s, beg, end);
